@@ -8,6 +8,7 @@ package syncer
 import (
 	"encoding/json"
 	"fmt"
+	"strings"
 	"testing"
 
 	"github.com/mgtv-tech/redis-GunYu/verifshim/mc"
@@ -199,6 +200,85 @@ func c03Enumerate(tier string, f func(c03Item)) {
 									f(c03Item{scn: rdbScenario{Keys: c03Layout(v, two, xm, lru), Version: v, Aux: v >= 7, Cfg: cfg}})
 								}
 							}
+						}
+					}
+				}
+			}
+		}
+	}
+	// ---- plan E: filters x database layouts. Three source databases (0, 1, 3), in each a
+	// pattern of kept (K) and dropped (D) keys - dropped key first / last / in the middle,
+	// every key of a database dropped, a whole database black-listed - x filter kind x
+	// database map x restore on/off x 1/2 workers (with 2 workers three sets of key names,
+	// because the worker of a key is FNV(key) mod 2). Exactly the kept keys must exist, each
+	// in its mapped database, and nothing else anywhere.
+	planE := func(pats [3]string, filter string, filterDB int, dbm string, restore bool, par, names int) {
+		dbs := [3]int{0, 1, 3}
+		cases := []struct {
+			c string
+			e ref.RDBEnc
+		}{{"string/short", ref.RDBEnc{Kind: "raw"}}, {"hash/small", ref.RDBEnc{Kind: "listpack"}}, {"list/small", ref.RDBEnc{Kind: "quicklist2", Node: 2}}}
+		var keys []rdbKeySpec
+		n := 0
+		for di, pat := range pats {
+			for i, ch := range pat {
+				drop := ch == 'D'
+				prefix := rdbKeepPrefix
+				if drop {
+					switch filter {
+					case "prefix-black":
+						prefix = rdbFltPrefix
+					case "db-black":
+						prefix = rdbKeepPrefix // dropped because of its database, not its name
+					default:
+						prefix = "drop:"
+					}
+				}
+				cs := cases[n%len(cases)]
+				n++
+				name := fmt.Sprintf("%sd%d.%d%s", prefix, dbs[di], i, []string{"", "-x", "-yz"}[names])
+				keys = append(keys, rdbKeySpec{DB: dbs[di], Key: name, Case: cs.c, Enc: cs.e, Idle: -1, Freq: -1, Drop: drop})
+			}
+		}
+		cfg := rdbCfg{Restore: restore, BulkLen: c03BigBulk, Parallel: par, DbMode: dbm, Resume: true, Filter: filter, FilterDB: filterDB}
+		f(c03Item{scn: rdbScenario{Keys: keys, Version: 11, Aux: true, Cfg: cfg}})
+	}
+	pat0 := []string{"KK", "DK", "KD", "DD"}
+	pat1 := []string{"K", "DK", "KD", "DKK", "KDK", "DD"}
+	pat3 := []string{"K", "DK", "KD", "DD"}
+	for _, dbm := range []string{"id", "map1739", "all0"} {
+		for _, restore := range []bool{true, false} {
+			for _, par := range []int{1, 2} {
+				nameSets := 1
+				if par == 2 {
+					nameSets = 3
+				}
+				for names := 0; names < nameSets; names++ {
+					for _, filter := range []string{"prefix-black", "prefix-white", "slot-white"} {
+						for _, p0 := range pat0 {
+							for _, p1 := range pat1 {
+								for _, p3 := range pat3 {
+									if !thorough && par == 2 && names > 0 && (p0 == "KK" || p3 == "K") && p1 != "DKK" {
+										continue
+									}
+									if filter == "slot-white" && !strings.Contains(p0+p1+p3, "K") {
+										continue // no kept key = an empty white list = no filter at all
+									}
+									planE([3]string{p0, p1, p3}, filter, 0, dbm, restore, par, names)
+								}
+							}
+						}
+					}
+					// a whole database black-listed: first, middle, last
+					for _, bdb := range []int{0, 1, 3} {
+						for _, size := range []string{"K", "KK"} {
+							pats := [3]string{size, size, size}
+							for di, d := range []int{0, 1, 3} {
+								if d == bdb {
+									pats[di] = map[string]string{"K": "D", "KK": "DD"}[size]
+								}
+							}
+							planE(pats, "db-black", bdb, dbm, restore, par, names)
 						}
 					}
 				}
